@@ -62,8 +62,7 @@ def solo_main(argv):
     idx, R = int(argv[0]), int(argv[1])
     ns = env.import_rbql()
     steps = []
-    obs = observe(ns, idx, R)
-    observe(ns, idx, R, count_steps=steps)
+    obs = observe(ns, idx, R, count_steps=steps)      # one single query in this fresh interpreter
     obs['_steps'] = {k: steps.count(k) for k in ('get_record', 'write', 'finish')}
     print(json.dumps(obs))
 
@@ -150,8 +149,15 @@ def leg_interleave(ns, res, spec):
                 return lambda step: observe(ns, idx, R, on_step=(lambda w, op: step(w, op) if op in kinds else None), who=who)
             return [body(i, '1'), body(j, '2')]
 
+        expected_steps = [sum(solo[idx]['_steps'][k] for k in kinds) for idx in (i, j)]
+
         def on_run(s, results, excs):
             res.evaluations += 1
+            per_thread = [sum(1 for t in s.trace if t == tid) for tid in (0, 1)]
+            if per_thread != expected_steps:
+                res.violation('py:step-structure-depends-on-interleaving:%s+%s' % (SCENARIOS[i][0], SCENARIOS[j][0]), '[py] under schedule %s the two queries performed %r read/write steps, alone they perform %r (%s | %s)' % (
+                    ''.join(str(t + 1) for t in s.trace), per_thread, expected_steps, SCENARIOS[i][1], SCENARIOS[j][1]), {'leg': 'interleave', 'pair': [i, j], 'schedule': s.trace, 'R': R, 'step_kinds': list(kinds)})
+                return False
             res.count('schedules')
             res.count('handoffs', s.handoffs)
             res.count('steps_granted', len(s.trace))
@@ -162,7 +168,9 @@ def leg_interleave(ns, res, spec):
                 if bad[0] < 3 and not compare_with_solo(res, idx, results[tid], solo[idx], 'interleaved:with %r under schedule %s' % (SCENARIOS[j if tid == 0 else i][0], ''.join(str(t + 1) for t in s.trace)),
                                                         {'leg': 'interleave', 'pair': [i, j], 'schedule': s.trace, 'R': R, 'step_kinds': list(kinds)}):
                     bad[0] += 1
-        count, traces, complete = sched.explore(make_bodies, on_run, spec.get('max_schedules'))
+        import math
+        cap = spec.get('max_schedules') or 4 * math.comb(sum(expected_steps), expected_steps[0]) + 10
+        count, traces, complete = sched.explore(make_bodies, on_run, cap)
         res.count('pairs')
         res.count('distinct_traces', traces)
         res.distinct_disjoint += traces
